@@ -765,6 +765,60 @@ func runRandomHistory(c *kit.Case, vc *kit.VClock) {
 	h.finish()
 }
 
+// ------------------------------------------------------------------ weight floor
+
+// runWeightFloor builds the state in which the anchored mechanism uses its smallest
+// weight: all accepted calls in the oldest bucket of the window, followed by f buckets
+// that hold only failures. The number of accepted calls is placed within a few calls of
+// 10*(nonAccepted-5), i.e. on the statement's "5 + 10%" boundary, then probes follow.
+func runWeightFloor(c *kit.Case, vc *kit.VClock) {
+	r := c.R
+	h := newHist(c, vc, "weight-floor", false)
+	f := r.Range(6, 39)
+	if r.Chance(0.5) {
+		f = r.Range(30, 39)
+	}
+	per := make([]int, f)
+	n := 0
+	for i := range per {
+		per[i] = 1
+		if r.Chance(0.15) {
+			per[i] = r.Range(2, 3)
+		}
+		n += per[i]
+	}
+	a := 10*(n-5) + kit.Choose(r, []int{-11, -3, -1, 0, 0, 1, 1, 5, 40})
+	okEntry := func() *call {
+		cl := &call{E: entry(r.Intn(5)), Out: oOK, FbRet: r.Intn(3)}
+		if r.Chance(0.2) && cl.E != eDo && cl.E != eDoFb {
+			cl.Out = oAcc
+		}
+		return cl
+	}
+	for i := 0; i < a && !c.Violated(); i++ {
+		h.step(okEntry())
+	}
+	for i := 0; i < f && !c.Violated(); i++ {
+		gap := bucketDur
+		for j := 0; j < per[i] && !c.Violated(); j++ {
+			cl := &call{Gap: gap, E: entry(r.Intn(5)), Out: kit.Choose(r, []outcome{oUnacc, oUnacc, oPanic}), FbRet: r.Intn(3)}
+			gap = 0
+			h.step(cl)
+		}
+	}
+	probes := r.Range(1, 6)
+	for i := 0; i < probes && !c.Violated(); i++ {
+		cl := okEntry()
+		if r.Chance(0.3) {
+			cl.Out = oUnacc
+		}
+		cl.Gap = kit.Choose(r, []time.Duration{0, 0, 1, time.Millisecond})
+		h.step(cl)
+	}
+	c.Obs("weight_floor_histories", 1)
+	h.finish()
+}
+
 // ------------------------------------------------------------------ bounded-exhaustive
 
 var exhGaps = []time.Duration{0, bucketDur, 39 * bucketDur}
@@ -1346,7 +1400,7 @@ func TestVerifC01(t *testing.T) {
 	defer kit.UninstallVClock()
 
 	// (a) random sequential histories, 10 per case
-	kit.Run(t, "C01", "random", kit.N(600, 20000), func(c *kit.Case) {
+	kit.Run(t, "C01", "random", kit.N(1200, 25000), func(c *kit.Case) {
 		for i := 0; i < 10 && !c.Violated(); i++ {
 			runRandomHistory(c, vc)
 			c.Evals(1)
@@ -1383,14 +1437,17 @@ func TestVerifC01(t *testing.T) {
 		}
 	}
 
+	// (a') accepted calls in the oldest bucket, then only failures: smallest weight, 10% boundary
+	kit.Run(t, "C01", "weight-floor", kit.N(400, 6000), func(c *kit.Case) { runWeightFloor(c, vc) })
+
 	// (5) statistical effectiveness
-	kit.Run(t, "C01", "effectiveness", kit.N(24, 400), func(c *kit.Case) { runEffectiveness(c, vc) })
+	kit.Run(t, "C01", "effectiveness", kit.N(48, 600), func(c *kit.Case) { runEffectiveness(c, vc) })
 
 	// (c)+(d) concurrent histories, registry races
-	kit.Run(t, "C01", "concurrent", kit.N(400, 8000), func(c *kit.Case) { runConcurrent(c, vc) })
+	kit.Run(t, "C01", "concurrent", kit.N(800, 12000), func(c *kit.Case) { runConcurrent(c, vc) })
 
 	// (d) integration site: rest/handler.BreakerHandler
-	kit.Run(t, "C01", "handler", kit.N(60, 1500), func(c *kit.Case) { runHandler(c, vc) })
+	kit.Run(t, "C01", "handler", kit.N(120, 2000), func(c *kit.Case) { runHandler(c, vc) })
 
 	kit.End()
 }
